@@ -40,6 +40,95 @@ def index_of(d):
     return out
 
 
+def adt_index(d):
+    """{adt path: [[(field name, field type string), ...] per variant]} for crate-local ADTs"""
+    types = d["types"]
+    out = {}
+    for a in d.get("adts", []):
+        if not a["path"].startswith(d["crate"] + "::"):
+            continue
+        out[a["path"]] = [[[f["name"], types[f["ty"]]["s"]] for f in v["fields"]] for v in a["variants"]]
+    return out
+
+
+def detect_adt_renames(cur, base):
+    """renamed crate-local types: a new ADT whose parent module and field list (names and types, up to its own name)
+    equal those of exactly one ADT that disappeared"""
+    new = [p for p in cur if p not in base]
+    missing = [p for p in base if p not in cur]
+    ren = {}
+    for n in sorted(new):
+        nn = n.rsplit("::", 1)[1]
+        c = []
+        for k in missing:
+            if k.rsplit("::", 1)[0] != n.rsplit("::", 1)[0]:
+                continue
+            kn = k.rsplit("::", 1)[1]
+            a = json.dumps(cur[n]).replace(nn, "\x00")
+            b = json.dumps(base[k]).replace(kn, "\x00")
+            if a == b:
+                c.append(k)
+        if len(c) == 1 and c[0] not in ren.values():
+            ren[n] = c[0]
+    return ren
+
+
+def detect_field_renames(cur, base):
+    """{new field name: old field name} for crate-local ADTs that kept their path, field count and field types (in
+    order) but changed some field names; only names that are unambiguous crate-wide are renamed"""
+    ren = {}
+    bad = set()
+    for p, vs in cur.items():
+        if p not in base or len(base[p]) != len(vs):
+            continue
+        for v_new, v_old in zip(vs, base[p]):
+            if len(v_new) != len(v_old) or [t for _, t in v_new] != [t for _, t in v_old]:
+                continue
+            if {n for n, _ in v_new} == {n for n, _ in v_old}:
+                continue
+            for (nn, _), (on, _) in zip(v_new, v_old):
+                if nn != on:
+                    if ren.get(nn, on) != on:
+                        bad.add(nn)
+                    ren[nn] = on
+    # a new name that is also a (non-renamed) field of another local type cannot be renamed globally
+    for p, vs in cur.items():
+        for v in vs:
+            for n, _ in v:
+                if n in ren:
+                    # is this occurrence itself one of the renamed ones?
+                    if p in base and any(len(vo) == len(v) and [t for _, t in vo] == [t for _, t in v] and ren[n] in [x for x, _ in vo] and n not in [x for x, _ in vo] for vo in base[p]):
+                        continue
+                    bad.add(n)
+    # nor may the old name still be in use as a different field of the same type
+    return {n: o for n, o in ren.items() if n not in bad}
+
+
+def apply_field_renames(d, ren):
+    """rename field names in place projections, aggregates, ADT tables and typed HIR"""
+    def rec(x):
+        if isinstance(x, dict):
+            if x.get("k") == "field" and x.get("name") in ren:
+                x["name"] = ren[x["name"]]
+            if "field_names" in x and isinstance(x["field_names"], list):
+                x["field_names"] = [ren.get(n, n) for n in x["field_names"]]
+            if x.get("k") == "struct" and isinstance(x.get("fields"), list):
+                for f in x["fields"]:
+                    if isinstance(f, dict) and f.get("name") in ren:
+                        f["name"] = ren[f["name"]]
+            for v in x.values():
+                rec(v)
+        elif isinstance(x, list):
+            for v in x:
+                rec(v)
+    rec(d["bodies"])
+    for a in d.get("adts", []):
+        for v in a["variants"]:
+            for f in v["fields"]:
+                if f["name"] in ren:
+                    f["name"] = ren[f["name"]]
+
+
 def load_baseline():
     if not os.path.exists(BASELINE):
         return None
